@@ -83,6 +83,16 @@ fn main() {
                     js["twin_events_same_spacing"] = serde_json::json!(o2.events.iter().map(runstream::ev_to_coq).collect::<Vec<_>>());
                     js["twin_events_merged"] = serde_json::json!(o3.events.iter().map(runstream::ev_to_coq).collect::<Vec<_>>());
                     js["twin_values"] = serde_json::json!([o2.strings, o3.strings]);
+                    // the spec's own initial value supplied as the guess: the same run as with no guess
+                    if s.guess.is_none() {
+                        let sp = cambrian::spec_util::from_yaml_str(runstream::SPECS[s.spec]).unwrap();
+                        let mut s4 = s.clone();
+                        s4.guess = Some(serde_json::to_string(&sp.initial_value().to_json()).unwrap());
+                        let (o4, _) = runstream::run_schedule_ex(&s4, Some((&actions, false)));
+                        write!(vfiles[sh], "{}", runstream::obs_to_coq(&o4, &format!("o{}d", idx))).unwrap();
+                        writeln!(vfiles[sh], "Eval vm_compute in (judge_guess_twin {} {}d).", name, name).unwrap();
+                        js["guess_twin"] = serde_json::json!({"guess": s4.guess, "events": o4.events.iter().map(runstream::ev_to_coq).collect::<Vec<_>>(), "values": o4.strings});
+                    }
                 }
                 jsons[sh].push(js);
             }
